@@ -23,7 +23,7 @@ ASSUMPTIONS = [
 ]
 MONITORS = "independent walk of the workspace (bytes, directories, exec bits) after apply; second compare's action lists; onerror recorder; audit-hook log of removals"
 REQUIRED_COUNTERS = ["there_and_back_histories", "priors_with_more_than_a_thousand_stale_files", "targets_with_prefix_named_sibling_directories", "targets_with_entries_without_hash", "link_type_lists_with_an_unavailable_first_type", "implicit_parent_targets", 
-    "same_index_histories_through_sqlite", "targets_handed_as_view", "root_key_file_targets", "priors_with_symlink_to_directory", "same_index_histories", "two_cache_targets", "implicit_parent_targets", "unavailable_directory_object_cases", "applies", "kind_swap_cases", "nested_dir_deletions", "lazy_targets", "explicit_targets", "delete_off_cases",
+    "same_index_histories_through_sqlite", "targets_handed_as_view", "root_key_file_targets", "priors_with_symlink_to_directory", "priors_with_dangling_symlink_at_a_target_file", "same_index_histories", "two_cache_targets", "implicit_parent_targets", "unavailable_directory_object_cases", "applies", "kind_swap_cases", "nested_dir_deletions", "lazy_targets", "explicit_targets", "delete_off_cases",
     "unavailable_source_cases", "second_compares", "exec_entries_checked", "link/hardlink", "link/symlink", "link/copy",
 ]
 
@@ -189,6 +189,16 @@ def run_shard(ctx):
             gen.write_tree(ws, P, Pe)
             for k in pexec:
                 os.chmod(os.path.join(ws, *k), 0o755)
+            # the prior workspace may hold a dangling symbolic link exactly where the target wants a file
+            if rng.random() < 0.1:
+                cand = [k for k in sorted(T) if os.path.isdir(os.path.join(ws, *k[:-1])) and not os.path.isdir(os.path.join(ws, *k))]
+                if cand:
+                    k = rng.choice(cand)
+                    pth = os.path.join(ws, *k)
+                    if os.path.lexists(pth):
+                        os.unlink(pth)
+                    os.symlink(os.path.join(d, "no-such-file-anywhere"), pth)
+                    res.count("priors_with_dangling_symlink_at_a_target_file")
             # the prior workspace may hold a symbolic link to a directory elsewhere (not part of the target)
             dirlink = None
             if delete and rng.random() < 0.06 and os.path.isdir(os.path.join(ws, top)) and (top, "lnk-to-dir") not in T and (top, "lnk-to-dir") not in indexlab.dirs_of(T, Te):
